@@ -346,6 +346,7 @@ class Executor:
         self._parse_cache = {}
         self.intrinsics = dict(DEFAULT_INTRINSICS)
         self.feas_solver = None
+        self.clz_known = {}     # term id -> (term, leading-zero count) pinned by a precondition
 
     # ---- entry
     def run(self, fname, args, globals_=None):
@@ -1331,6 +1332,9 @@ def decode_bytes(data, off, ty):
 def _i_ctlz(ex, st, fr, callee, args):
     a = args[0]
     bits = INT_TYPES[a.ty][0]
+    known = ex.clz_known.get(a.t.get_id())
+    if known is not None and known[0].eq(a.t):
+        return bv("u32", known[1])
     if is_conc(a.t):
         v = a.t.as_long()
         return bv("u32", bits - v.bit_length())
